@@ -33,7 +33,7 @@ MANIFEST = dict(
          "commodity, and compound keys; the truncate_xacts handler equals the union window {i < N} u {i >= len-M} on the transaction "
          "groups for every --head N / --tail M (take N / drop len-N alone; negative counts drop from the other end); every "
          "--subtotal/--collapse/--by-payee/--dow/--depth row and the grand total equal the per-commodity sums of the member postings, "
-         "also for two stacked regrouping options (guarded where the code loses a multi-commodity value), and --depth rows come in "
+         "also for two stacked regrouping options, and --depth rows come in "
          "account-name order. The window comparisons, the sort algorithm, the map comparator and the handler bodies are re-extracted "
          "from the source on every run; the model is run against the rebuilt binary on paired reg runs; an independent Fraction "
          "reference on ledger's own rows supplies the failing input.",
@@ -42,9 +42,9 @@ MANIFEST = dict(
          "opaque commodity names taken from ledger's own plain rows (regroup.rows), the valuation (-B) is data; elided amounts are "
          "checked by the oracle only; --subtotal/--by-payee/--dow refuse (error, modelled) an account that has both virtual and "
          "real postings. Findings replayed on the binary: (1) the amount sort key is not a strict weak order when a zero amount (or "
-         "an amount without commodity) meets two commodities; (2) subtotal_posts reads post.amount, so a multi-commodity row handed "
-         "over by --by-payee/--dow is lost or refused (--by-payee --subtotal), and (3) it ignores the amount expression, so "
-         "-B --subtotal/--by-payee/--dow report lots, not costs.",
+         "an amount without commodity) meets two commodities; (2) subtotal_posts ignores the amount expression, so "
+         "-B --subtotal/--by-payee/--dow report lots, not costs. Fixed (08839e9) and watched: subtotal_posts lost a "
+         "multi-commodity row handed over by --by-payee/--dow (the read is an extracted flag, Gen.Regroup.subtotalReadsCompound).",
     technique="Lean 4 proof over a hand-written model + regenerated comparison operators/bodies + differential model/binary check + Fraction oracle",
     ref="DESIGN.md §5 C17")
 
@@ -460,8 +460,8 @@ def oracle(plain, opt, res):
     try:
         want = reference(plain, o)
     except Refusal as e:
-        if res[0] == "err" and (res[1] == str(e) or (res[1] in ("virt-mix", "null-amount") and o.pre and o.subtotal)):
-            return None          # with two subtotal-family stages the handlers run interleaved: either refusal may come first
+        if res[0] == "err" and res[1] == str(e):
+            return None
         if res[0] == "err":
             return "%s failed with %s (%s), expected the %s refusal" % (opt, res[1], res[2][-120:], e)
         return "%s printed rows although an account mixes virtual and real postings" % opt
@@ -945,13 +945,7 @@ def run(tier, seed):
                     else:
                         ok_tie = False
             elif impl != mod[:2]:
-                if impl[0] == "err" and mod[0] == "err" and o.pre and o.subtotal and \
-                        {impl[1], mod[1]} <= {"virt-mix", "null-amount"}:
-                    # both refuse; which of two refusals is raised first depends on the interleaving of the
-                    # two handlers at flush time, which the stage-by-stage model does not reproduce
-                    ctx.feature("tie:refusal-kind-order")
-                else:
-                    ok_tie = False
+                ok_tie = False
             if ok_tie is False:
                 ctx.tie_broken("corr:regroup:" + k, "journal:\n%s\nfilter %s option %s\nledger: %s\nmodel:  %s" % (
                     text, f, opt, impl[:12], mod[:12]))
@@ -1127,10 +1121,10 @@ def oracle_selftest_one(ctx, j, comms, f):
         ctx.feature("oracle-selftest:" + name)
         if oracle(plain, o, ("ok", r)) is None:
             ctx.tie_broken("oracle:insensitive:%s:%s" % (o, name), "the oracle accepts a wrong %s output (%s)" % (o, name))
-    # the unmodified outputs are accepted (the two known subtotal_posts defects aside)
+    # the unmodified outputs are accepted (the two known defects aside)
     for o, rc in by.items():
         e = oracle(plain, o, rc["ledger"])
-        if e is not None and fingerprint(o, plain, f) not in (COMPOUND_FP, EXPR_FP, ZERO_FP):
+        if e is not None and fingerprint(o, plain, f) not in (EXPR_FP, ZERO_FP):
             ctx.tie_broken("oracle:selftest-base:" + o, e)
 
 
